@@ -16,9 +16,29 @@ UNIT = dict(
             dict(rule='R10', pat=r'value = ([^;\n]*)u32::from\(byte\);', to=r'let byte = buffer[__k1 - 1];\n        value = \1u32_from(byte);', count=1, note='index loop: element k; u32::from(u8) shim'),
             dict(rule='R5', lit='let mut value = 0;', to='let mut value: u32 = 0;', count=1, note='integer type made explicit (inferred from the return type)'),
         ])),
+        dict(file='src/parser_aux.rs', name='decode_xref_stream', props=['C02', 'C04'], variant='robustness', rules=dict(no_sink=True, raw_sig=True, loops={1: dict(kind='keep'), 2: dict(kind='keep')}, pre_subst=[
+            dict(rule='R7', lit='fn decode_xref_stream(mut stream: Stream) -> Result<(Xref, Dictionary)> {', to='fn decode_xref_stream(mut stream: Stream) -> (r: core::result::Result<(Xref, Dictionary), ErrTag>)\n{', count=1, note='result named; crate Error as an opaque tag'),
+            dict(rule='R10', pat=r'let size = dict\s*\.get\(b"Size"\)\s*\.and_then\(Object::as_i64\)\s*\.map_err\(\|_\| ParseError::InvalidXref\)\?;', to='let size = dict_get_i64(&dict, b"Size")?;', count=1, note='get(k).and_then(as_i64).map_err(..)? template: shim dict_get_i64'),
+            dict(rule='R10', pat=r'let section_indice = dict\s*\.get\(b"Index"\)\s*\.and_then\(parse_integer_array\)\s*\.unwrap_or_else\(\|_\| vec!\[0, size\]\);', to='let section_indice = match dict_get_int_array(&dict, b"Index") { Ok(v) => v, Err(_) => vec2(0, size) };', count=1, note='get(k).and_then(parse_integer_array).unwrap_or_else(|_| d) template: shim dict_get_int_array (parse_integer_array is the loop over Object::as_i64)'),
+            dict(rule='R10', pat=r'let field_widths = dict\s*\.get\(b"W"\)\s*\.and_then\(parse_integer_array\)\s*\.map_err\(\|_\| ParseError::InvalidXref\)\?;', to='let field_widths = dict_get_int_array(&dict, b"W")?;', count=1, note='same template with map_err(..)?'),
+            dict(rule='R10', lit='field_widths[..3].iter().all(|&w| w == 0)', to='all3_zero(&field_widths)', optional=True, note='slice.iter().all over the first three elements: verified helper'),
+            dict(rule='R10', lit='field_widths[..3].iter().any(|&w| w as u64 > data_len)', to='any3_gt(&field_widths, data_len)', optional=True, note='slice.iter().any over the first three elements: verified helper'),
+            dict(rule='R10', lit='let id = start.checked_add(j).and_then(|id| u32::try_from(id).ok());', to='let id = id_of(start, j);', optional=True, note='checked_add(..).and_then(u32::try_from(..).ok()) template: verified helper id_of'),
+            dict(rule='R10', pat=r'u32::try_from\(([^()]+)\)\.ok\(\)', to=r'u32_try_from_i64(\1)', optional=True, note='u32::try_from(i64).ok(): verified helper'),
+            dict(rule='R5', lit='dict.remove(b"Length");', to='dict_remove(&mut dict, b"Length");', count=1, note='Dictionary::remove shim'),
+            dict(rule='R5', lit='dict.remove(b"W");', to='dict_remove(&mut dict, b"W");', count=1, note='Dictionary::remove shim'),
+            dict(rule='R5', lit='dict.remove(b"Index");', to='dict_remove(&mut dict, b"Index");', count=1, note='Dictionary::remove shim'),
+        ], subst=[
+            dict(rule='R5', pat=r'field_widths\[(\d)\]\.is_negative\(\)', to=r'field_widths[\1] < 0', note='i64::is_negative'),
+            dict(rule='R5', lit='return Err(ParseError::InvalidXref.into());', to='return Err(ErrTag);', count=2, note='error value as opaque tag'),
+            dict(rule='R5', lit='reader.get_ref().len() as u64', to='reader.data.len() as u64', count=1, note='Cursor::get_ref'),
+            dict(rule='R5', pat=r'vec!\[0_u8; field_widths\[(\d)\] as usize\]', to=r'zeros_bounded(field_widths[\1] as usize, Ghost(data_len as nat))', count=3, note='vec![0; n] shim whose precondition is the allocation bound n <= data length'),
+        ])),
         dict(file=R, impl="Reader<'_>", emit_impl='impl Reader', key_impl='Reader', name='search_substring', props=['C02', 'C04', 'C07'], rules=dict(no_sink=True, subst=[
             dict(rule='R5', lit='return Self::search_substring(buffer, pattern, res + 1).or(Some(res));', to='return opt_or(Self::search_substring(buffer, pattern, res + 1), res);', count=1, note='Option::or shim'),
         ])),
+        dict(file=X, impl='Xref', name='new', overlay='../../writer/ov/Xref.new.ov', props=['C02', 'C04'], rules=dict(no_sink=True, subst=[dict(rule='R8', lit='BTreeMap::new()', to='VBTreeMap::new()', note='BTreeMap model')])),
+        dict(file=X, impl='Xref', name='insert', overlay='../../writer/ov/Xref.insert.ov', props=['C02', 'C04'], rules=dict(no_sink=True)),
         dict(file=X, impl='Xref', name='merge', props=['C07', 'C08'], rules=dict(no_sink=True, loops={1: dict(kind='pairs_owned', seq='__merge_src')}, pre_subst=[
             dict(rule='R8', lit='for (id, entry) in xref.entries {', to='for (id, entry) in __merge_src {', count=1, note='BTreeMap into_iter = key-ordered entry list'),
         ], subst=[
